@@ -318,6 +318,7 @@ func (g *Gen) colorFunction() string {
 		sep = g.pick(",", ", ", " , ", ",  ")
 	}
 	withAlpha := g.chance(1, 2)
+	alphaZero := false
 	var a, b, c, name string
 	if g.chance(2, 3) {
 		name = "rgb"
@@ -331,6 +332,18 @@ func (g *Gen) colorFunction() string {
 		}
 		if g.chance(1, 12) {
 			a, b, c = "0", "0", "0"
+		}
+		if g.chance(1, 10) {
+			// channels below zero (clamped to 0 when the colour is computed) next to positive ones: the arguments must be
+			// judged one by one, not by their sum; mostly with an alpha of zero (the `transparent` rewrite)
+			n := fmt.Sprint(1 + g.r.Intn(255))
+			perm := [][3]string{{"-" + n, n, "0"}, {n, "-" + n, "0"}, {"0", "-" + n, n}, {"-" + n, "0", n}, {"-1", "0", "1"}, {"-" + n, "-" + n, g.byteArg()}}[g.r.Intn(6)]
+			a, b, c = perm[0], perm[1], perm[2]
+			if g.chance(3, 4) {
+				withAlpha = true
+				name = g.pick("rgba", "rgb")
+				alphaZero = true
+			}
 		}
 	} else {
 		name = "hsl"
@@ -353,10 +366,14 @@ func (g *Gen) colorFunction() string {
 	name = g.randCase(name)
 	s := name + "(" + g.pick("", "", " ") + a + sep + b + sep + c
 	if withAlpha {
+		al := g.alphaArg()
+		if alphaZero {
+			al = g.pick("0", "0", "0.0", "0%", ".0")
+		}
 		if modern {
-			s += g.pick(" / ", "/", " /", "/ ") + g.alphaArg()
+			s += g.pick(" / ", "/", " /", "/ ") + al
 		} else {
-			s += sep + g.alphaArg()
+			s += sep + al
 		}
 	}
 	return s + g.pick("", "", " ") + ")"
